@@ -9,6 +9,7 @@ import z3
 Z3_TIMEOUT_MS = int(os.environ.get('PYVC_Z3_TIMEOUT_MS', '20000'))
 CVC5_TIMEOUT_S = int(os.environ.get('PYVC_CVC5_TIMEOUT_S', '30'))
 NPROC = int(os.environ.get('PYVC_NPROC', '16'))
+RETRY_MAX = int(os.environ.get('PYVC_RETRY_MAX', '24'))
 
 
 def to_smt2(pc, goal):
@@ -37,6 +38,8 @@ def _solve_one(job):
     idx, smt2, timeout_ms, use_cvc5 = job[:4]
     smt2_ack = job[4] if len(job) > 4 else None
     cvc5_first = job[5] if len(job) > 5 else False
+    scale = job[6] if len(job) > 6 else 1       # second pass for the few obligations left undecided (see solve_all)
+    timeout_ms = timeout_ms * scale
     t0 = time.time()
     verdict, backend, reason = 'unknown', 'z3', ''
     if smt2_ack is not None:
@@ -73,18 +76,18 @@ def _solve_one(job):
             reason = 'ack error: ' + repr(e)
     if cvc5_first and use_cvc5:
         # opt-in (spec.cvc5_first = True): word-equation heavy obligations that cvc5 settles in milliseconds
-        v1, why1 = _cvc5(smt2)
+        v1, why1 = _cvc5(smt2, tlimit_s=CVC5_TIMEOUT_S * scale)
         if v1 != 'unknown':
             return idx, v1, 'cvc5', time.time() - t0, ''
         use_cvc5 = False
         reason = 'cvc5: ' + why1 + ' | '
     try:
-        verdict, r1 = _z3_try(smt2, min(timeout_ms, 4000))
+        verdict, r1 = _z3_try(smt2, min(timeout_ms, 4000 * scale))
         reason += r1
     except Exception as e:      # solver crash: never a violation
         reason = 'z3 error: ' + repr(e)
     if verdict == 'unknown' and use_cvc5:
-        v2, why = _cvc5(smt2)
+        v2, why = _cvc5(smt2, tlimit_s=CVC5_TIMEOUT_S * scale)
         if v2 != 'unknown':
             verdict, backend = v2, 'cvc5'
         else:
@@ -146,6 +149,19 @@ def solve_all(obligations, timeout_ms=None, use_cvc5=True, nproc=None):
         ctx = mp.get_context('fork')
         with ctx.Pool(min(nproc, len(jobs))) as pool:
             results = pool.map(_solve_one, jobs, chunksize=1)
+    # Second pass: a timeout is load-dependent (wall-clock budgets), a verdict must not be.  The few obligations the
+    # first pass left undecided are retried with 4x budgets while the pool is otherwise idle.
+    undecided = [r[0] for r in results if r[1] == 'unknown']
+    if 0 < len(undecided) <= RETRY_MAX:
+        rjobs = [jobs[i] + (False,) * (6 - len(jobs[i])) + (4,) for i in undecided]
+        if len(rjobs) <= 1 or nproc == 1:
+            retried = [_solve_one(j) for j in rjobs]
+        else:
+            ctx = mp.get_context('fork')
+            with ctx.Pool(min(nproc, len(rjobs))) as pool:
+                retried = pool.map(_solve_one, rjobs, chunksize=1)
+        byidx = {r[0]: r for r in retried}
+        results = [byidx[r[0]] if r[0] in byidx and byidx[r[0]][1] != 'unknown' else r for r in results]
     for idx, verdict, backend, t, reason in results:
         ob = obligations[idx]
         if ob.kind == 'cover':
